@@ -1,6 +1,7 @@
 import Driver.RW
 import EoVerif.Model.GenExec
 import EoVerif.Spec.Protocol
+import EoVerif.Lemmas.RoundTripDefs
 /-! Driver commands for the generator model (C01–C03, C15–C19). -/
 namespace Driver
 open EoVerif EoVerif.Gen
@@ -187,6 +188,15 @@ def handleGen (gs : GenState) : List String → GenState × String
         | none => "refuse")
     | none, _, _ => (gs, "no-spec")
     | _, _, _ => (gs, "bad-op")
+  | "rtdomain" :: cls :: ts =>
+    -- is (spec, class, value) inside the domain of the machine-checked round-trip theorem (Props/C01.lean)?
+    match gs.spec, pValue ts with
+    | some t, some (v, _) =>
+      let u := (Spec.RT.okClass t (t.classes.length + 1) cls false true true).isSome
+      let r := Spec.RT.rtClass t (t.classes.length + 1) cls v false
+      (gs, s!"ok unambiguous {b01 u} rtvalue {b01 r}")
+    | none, _ => (gs, "no-spec")
+    | _, _ => (gs, "bad-op")
   | ["rspec", cls, chunked, h] =>
     match gs.spec, parseBool chunked, parseHex h with
     | some t, some ch, some bs =>
